@@ -328,6 +328,63 @@ fn main() {
         }
     }
 
+    // ---------------- (e') one-pass header of one version in front of a signature of the other: never accepted.  The attack
+    //                  this rule closes: a v4 signature over S || M verifies as a signature over M behind a v6 one-pass
+    //                  header whose salt is S (the salt is hashed before the body); and a v6 signature over M with salt S
+    //                  as a signature over S || M behind a v3 header
+    {
+        use pgp::packet::{LiteralData, Packet, SignatureConfig, SignatureType, Subpacket, SubpacketData};
+        use pgp::types::{KeyDetails, SigningKey, Timestamp};
+        let frame = |tag: u8, body: &[u8]| -> Vec<u8> { let mut v = vec![0xC0 | tag]; assert!(body.len() < 192); v.push(body.len() as u8); v.extend_from_slice(body); v };
+        let lit = |m: &[u8]| -> Vec<u8> { let mut b = vec![b'b', 0, 0, 0, 0, 0]; b.extend_from_slice(m); frame(11, &b) };
+        let m: Vec<u8> = b" pay 100 EUR to Mallory.".to_vec();
+        // (1) OPS v6 (salt S) | Literal(M) | Sig v4 over S || M, by the v4 key
+        {
+            let pk = SignedPublicKey::from(k4.clone());
+            let hash = k4.primary_key.hash_alg();
+            let salt: Vec<u8> = (0..hash.salt_len().unwrap_or(16) as u8).map(|i| b"Dear Bob, do NOT pay this or anything else"[i as usize % 40]).collect();
+            let r = guarded(|| -> Option<(bool, bool)> {
+                let mut c = SignatureConfig::v4(SignatureType::Binary, k4.primary_key.algorithm(), hash);
+                c.hashed_subpackets = vec![Subpacket::regular(SubpacketData::SignatureCreationTime(Timestamp::from_secs(1_700_000_000))).ok()?, Subpacket::regular(SubpacketData::IssuerFingerprint(k4.primary_key.fingerprint())).ok()?];
+                let signed: Vec<u8> = [&salt[..], &m[..]].concat();
+                let sig = c.sign(&k4.primary_key, &Password::empty(), &signed[..]).ok()?;
+                let sigp = Packet::from(sig).to_bytes().ok()?;
+                let mut fp32 = k4.primary_key.fingerprint().as_bytes().to_vec(); fp32.resize(32, 0);
+                let mut ops = vec![6u8, 0, u8::from(hash), u8::from(k4.primary_key.algorithm()), salt.len() as u8]; ops.extend(&salt); ops.extend(&fp32); ops.push(1);
+                let msg = [frame(4, &ops), lit(&m), sigp.clone()].concat();
+                let verifies = |bytes: &[u8]| -> bool { (|| { let mut mm = Message::from_bytes(bytes).ok()?; let mut o = Vec::new(); mm.read_to_end(&mut o).ok()?; Some(mm.verify(&pk).is_ok()) })().unwrap_or(false) };
+                // control: the honest shape OPS v3 | Literal(S || M) | Sig v4 verifies
+                let mut ops3 = vec![3u8, 0, u8::from(hash), u8::from(k4.primary_key.algorithm())]; ops3.extend(k4.primary_key.legacy_key_id().as_ref()); ops3.push(1);
+                let honest = [frame(4, &ops3), lit(&signed), sigp].concat();
+                Some((verifies(&msg), verifies(&honest)))
+            });
+            let (imp, pred) = match r.clone() { Ok(Some((crossed, honest))) => (format!("crossed-verifies={crossed} honest-verifies={honest}"), !crossed && honest), Ok(None) => ("not constructible".into(), false), Err(p) => (p, false) };
+            cx.out.case("", &[], &["ops-version-crossed".into(), "ops6-sig4".into()], &imp, Some(pred), "ops-version-crossed-ops6-sig4");
+            if let Ok(Some((crossed, honest))) = r { for (ov, sv, acc) in [(6, 4, crossed), (3, 4, honest)] { cx.out.case("opspair", &[ov.to_string(), sv.to_string()], &["ops-version-crossed".into(), "ops6-sig4".into()], &(acc as u8).to_string(), None, "ops-version-pairing"); } }
+        }
+        // (2) OPS v3 | Literal(S || M) | Sig v6 over M with salt S, by the v6 key
+        {
+            let pk = SignedPublicKey::from(k6.clone());
+            let hash = k6.primary_key.hash_alg();
+            let r = guarded(|| -> Option<(bool, bool)> {
+                let mut c = SignatureConfig::v6(Rng::new(77), SignatureType::Binary, k6.primary_key.algorithm(), hash).ok()?;
+                c.hashed_subpackets = vec![Subpacket::regular(SubpacketData::SignatureCreationTime(Timestamp::from_secs(1_700_000_000))).ok()?, Subpacket::regular(SubpacketData::IssuerFingerprint(k6.primary_key.fingerprint())).ok()?];
+                let salt: Vec<u8> = match &c.version_specific { pgp::packet::SignatureVersionSpecific::V6 { salt } => salt.clone(), _ => return None };
+                let sig = c.sign(&k6.primary_key, &Password::empty(), &m[..]).ok()?;
+                let sigp = Packet::from(sig).to_bytes().ok()?;
+                let mut ops3 = vec![3u8, 0, u8::from(hash), u8::from(k6.primary_key.algorithm())]; ops3.extend(k6.primary_key.legacy_key_id().as_ref()); ops3.push(1);
+                let crossed = [frame(4, &ops3), lit(&[&salt[..], &m[..]].concat()), sigp.clone()].concat();
+                let mut ops6 = vec![6u8, 0, u8::from(hash), u8::from(k6.primary_key.algorithm()), salt.len() as u8]; ops6.extend(&salt); ops6.extend(k6.primary_key.fingerprint().as_bytes()); ops6.push(1);
+                let honest = [frame(4, &ops6), lit(&m), sigp].concat();
+                let verifies = |bytes: &[u8]| -> bool { (|| { let mut mm = Message::from_bytes(bytes).ok()?; let mut o = Vec::new(); mm.read_to_end(&mut o).ok()?; Some(mm.verify(&pk).is_ok()) })().unwrap_or(false) };
+                Some((verifies(&crossed), verifies(&honest)))
+            });
+            let (imp, pred) = match r.clone() { Ok(Some((crossed, honest))) => (format!("crossed-verifies={crossed} honest-verifies={honest}"), !crossed && honest), Ok(None) => ("not constructible".into(), false), Err(p) => (p, false) };
+            cx.out.case("", &[], &["ops-version-crossed".into(), "ops3-sig6".into()], &imp, Some(pred), "ops-version-crossed-ops3-sig6");
+            if let Ok(Some((crossed, honest))) = r { for (ov, sv, acc) in [(3, 6, crossed), (6, 6, honest)] { cx.out.case("opspair", &[ov.to_string(), sv.to_string()], &["ops-version-crossed".into(), "ops3-sig6".into()], &(acc as u8).to_string(), None, "ops-version-pairing"); } }
+        }
+    }
+
     // ---------------- (g) certificates: subkey versions; signing subkeys on the public and the secret path
     {
         // v6 primary with a v4 subkey and the reverse: splice the subkey packets of one certificate behind the other
